@@ -148,7 +148,8 @@ def build_photo(root, ph):
             fits.Column(name='SUN_ANGLE', format='E', array=-20*np.ones(n)),
             fits.Column(name='SCORE', format='E', array=np.zeros(n))]
     fl = os.path.join(resolve, 'window_flist.fits')
-    fits.HDUList([fits.PrimaryHDU(), fits.BinTableHDU.from_columns(cols)]).writeto(fl)
+    pre = [fits.ImageHDU()] if ph.get('flist_layout') == 'image_ext_first' else []
+    fits.HDUList([fits.PrimaryHDU()] + pre + [fits.BinTableHDU.from_columns(cols)]).writeto(fl)
     damage_file(fl, ph.get('flist_damage'))
     for f in flds:
         r, c, fld = f['run'], f['camcol'], f['field']
